@@ -214,4 +214,67 @@ theorem code_rollback_closures_are_modelled :
        "[err!=nil] Return err", "Return nil"]
     ∧ TxFsHooks.deletePartCallTime = ["Return nil"] := ⟨rfl, rfl, rfl, rfl⟩
 
+-- ---------------------------------------------------------------- nested execution: closures belong to the root
+
+theorem registerAll_code (c : Ctl) (calls : List (Handle × Reg)) (i : Nat) :
+    Ctl.registerAll Routing.code c calls i =
+      { pre := c.pre ++ closuresOf .pre (calls.map (·.2)) i,
+        after := c.after ++ closuresOf .after (calls.map (·.2)) i,
+        rollback := c.rollback ++ closuresOf .rollback (calls.map (·.2)) i } := by
+  induction calls generalizing c i with
+  | nil => simp [Ctl.registerAll, closuresOf]
+  | cons hr rest ih =>
+    obtain ⟨h, r⟩ := hr
+    simp only [Ctl.registerAll, List.map_cons, closuresOf]
+    rw [ih]
+    simp [Ctl.registerCall, Ctl.add, Routing.code, List.append_assoc]
+
+/-- **nested_hooks_run_with_root.** With the routing the code has (every registration method
+appends to the ROOT controller's list of its own kind), the root's three closure lists after any
+sequence of part-store calls are the same whether each call was made through the root handle or
+through a child handle (an operation nested in an enclosing transaction): in call order, nothing
+lost. Hence a nested operation is finalised — committed, failed, rolled back — exactly like a
+direct one, and `rollback_restores_files` / `commit_statement_failure_restores_files` apply to it. -/
+theorem nested_hooks_run_with_root (calls : List (Handle × Reg)) :
+    Ctl.registerAll Routing.code {} calls 0 =
+      Ctl.registerAll Routing.code {} (calls.map fun x => (Handle.root, x.2)) 0
+    ∧ (Ctl.registerAll Routing.code {} calls 0).rollback = closuresOf .rollback (calls.map (·.2)) 0 := by
+  rw [registerAll_code, registerAll_code]
+  simp [List.map_map, Function.comp_def]
+
+/-- … in particular the failing COMMIT of a nested transaction leaves the same directory. -/
+theorem nested_commit_failure_eq_direct (rev : Bool) (calls : List (Handle × Reg)) (fsT : Files) :
+    Ctl.commitFails rev (Ctl.registerAll Routing.code {} calls 0) fsT =
+      Ctl.commitFails rev (Ctl.registerAll Routing.code {} (calls.map fun x => (Handle.root, x.2)) 0) fsT := by
+  rw [(nested_hooks_run_with_root calls).1]
+
+/-- **Negation witness for a receiver-routed OnRollback** (`t.onRollback = append(t.onRollback, fn)`):
+a DeletePart made through a child handle loses its rollback closure; when the COMMIT fails, part 3
+stays renamed away. With the code's routing it is restored. -/
+theorem receiver_routed_rollback_loses_closure :
+    let fs0 := emptyFiles.set (.part 3) (some [4])
+    let bad : Routing := { Routing.code with onRollback := ⟨false, .rollback⟩ }
+    (Ctl.commitFails true (Ctl.registerAll bad {} [(.child, .del 3)] 0) fs0).2 (.part 3) = none
+    ∧ (Ctl.commitFails true (Ctl.registerAll Routing.code {} [(.child, .del 3)] 0) fs0).2 (.part 3) = some [4]
+    ∧ (Ctl.commitFails true (Ctl.registerAll bad {} [(.root, .del 3)] 0) fs0).2 (.part 3) = some [4] := by
+  decide
+
+/-- The generic list runner and the closure-level model agree on a mixed transaction (new part 7
+published through the root handle, old part 3 deleted through a child handle, COMMIT fails). -/
+example :
+    let fs0 := emptyFiles.set (.part 3) (some [4])
+    let regs := [Reg.put 7 [9], Reg.del 3]
+    ∀ nm ∈ [FName.part 3, .part 7, .backup 3 1, .temp 7 0],
+      (Ctl.commitFails true (Ctl.registerAll Routing.code {} [(.root, regs[0]), (.child, regs[1])] 0)
+          (registerAll regs 0 fs0)).2 nm = (commitFault true regs 2 fs0).files nm := by
+  decide
+
+open Pithos.Gen in
+/-- T1: the list every registration method of `TxController` appends to (`root` = `t.rootTx()`). -/
+theorem code_hook_routing_is_modelled :
+    TxFsHooks.hookRouting =
+      ["OnPreCommit root.onPreCommit", "OnAfterCommit root.onAfterCommit", "OnRollback root.onRollback"]
+    ∧ TxFsHooks.hookRoutingRoot =
+      ["OnPreCommit root:=t.rootTx()", "OnAfterCommit root:=t.rootTx()", "OnRollback root:=t.rootTx()"] := ⟨rfl, rfl⟩
+
 end Pithos.C03
